@@ -36,6 +36,15 @@ func (m c10Msg) build() *fbb.Message {
 	msg.AddCc(m.Cc...)
 	msg.SetSubject("s")
 	msg.SetBody(fmt.Sprintf("tag %d\n", m.Tag))
+	// what a mailbox stores are whole messages: every third one carries attachments — an empty one
+	// followed by a non-empty one — and every sixth has no body text besides
+	if m.Tag%3 == 0 {
+		if m.Tag%6 == 0 {
+			msg.SetBody("")
+		}
+		msg.AddFile(fbb.NewFile("empty.txt", nil))
+		msg.AddFile(fbb.NewFile("data.txt", []byte(fmt.Sprintf("payload %d", m.Tag))))
+	}
 	if m.P2P {
 		msg.Header.Set("X-P2POnly", "true")
 	}
@@ -63,7 +72,7 @@ func c10List(msgs []*fbb.Message, err error) string {
 
 func runC10(ctx *Ctx) error {
 	r, res := ctx.Rng, ctx.Res
-	res.Rule = "histories over a universe of 7 MIDs (incl. one sorting before '.' in file-name order, one containing a dot and one ending in the mailbox's own extension), 3 recipient forms, forwarder lists {none, one, two, mixed case, the same station twice or in two spellings} and the P2P-only flag: AddOut, Prepare, restart with a fresh DirHandler (normal / send-only), GetOutbound, SetSent, SetDeferred, ProcessInbound, GetInboundAnswer, SetUnread (a third of them set, reversed and set again on the same listed message), folder listings; random histories of length 4..40 (a third of them about one message within one long session; every eighth beginning with post, flag in the outbox, sent, flag in the sent folder, listings) and (thorough) all histories of length <= 4 over a reduced alphabet. Every observation of the real DirHandler on a temporary directory is compared with the model; returned outbound messages must carry no X-FilePath / X-Unread / X-P2POnly header. SetSent of a MID not in the outbox (log.Fatalf) is run in a child process. Non-trivial: history with a SetSent or an inbound message followed by a query; distinct by history."
+	res.Rule = "histories over a universe of 7 MIDs (incl. one sorting before '.' in file-name order, one containing a dot and one ending in the mailbox's own extension), 3 recipient forms, messages with and without attachments (an empty attachment followed by a non-empty one; no body text), forwarder lists {none, one, two, mixed case, the same station twice or in two spellings} and the P2P-only flag: AddOut, Prepare, restart with a fresh DirHandler (normal / send-only), GetOutbound, SetSent, SetDeferred, ProcessInbound, GetInboundAnswer, SetUnread (a third of them set, reversed and set again on the same listed message), folder listings; random histories of length 4..40 (a third of them about one message within one long session; every eighth beginning with post, flag in the outbox, sent, flag in the sent folder, listings) and (thorough) all histories of length <= 4 over a reduced alphabet. Every observation of the real DirHandler on a temporary directory is compared with the model; returned outbound messages must carry no X-FilePath / X-Unread / X-P2POnly header. SetSent of a MID not in the outbox (log.Fatalf) is run in a child process. Non-trivial: history with a SetSent or an inbound message followed by a query; distinct by history."
 	root, err := os.MkdirTemp("", "verif-c10-")
 	if err != nil {
 		return err
